@@ -8,7 +8,7 @@ TB = "Trusted: go/types+go/ssa (x/tools v0.29.0), this checker's analyses, froze
 
 CHECKS = {
  "C01": dict(cat="other",
-   text="Decides structural necessary conditions of the protected round trip, not the value-level equality: sender role r and receiver role not-r use the same cipher/MAC objects and these follow the RFC 7296 2.14 table; each SA object is keyed with its own key through the SA's own descriptor; plain fallbacks are taken exactly without key / without leading SK; both header arms hand msg[28:] and the header's next-payload to the chain walker; the inner chain is linked through Encrypted.NextPayload and exactly L checksum octets are appended and stripped. Breaking any of these breaks the round trip; AES/HMAC inversion and the plain codec are other properties.",
+   text="Decides structural necessary conditions of the protected round trip, not the value-level equality: sender role r and receiver role not-r use the same cipher/MAC objects and these follow the RFC 7296 2.14 table; each SA object is keyed with its own key through the SA's own descriptor; plain fallbacks are taken exactly without key / without leading SK; both header arms hand msg[28:] and the header's next-payload to the chain walker; the inner chain is linked through Encrypted.NextPayload and exactly L checksum octets are appended and stripped. Breaking any of these breaks the round trip; AES/HMAC inversion and the plain codec are other properties. A protect that fails while encoding or encrypting the inner payloads leaves the message's payload list as it was (Reset / BuildEncrypted only on the nil-error edges of Payloads.Encode and encryptPayload), and Decrypt has no failure exit for any legal pad length (last octet p with p + 1 <= length of the decrypted blocks).",
    ref="DESIGN.md 4 C01",
    note=TB,
    tech="static analysis: role-to-key tables from branch structure, dominance, linear-form comparison of slice bounds, call-chain argument tracing"),
@@ -18,7 +18,7 @@ CHECKS = {
    note=TB + " HMAC is a secure MAC; hmac.Equal compares whole slices.",
    tech="static analysis: must-pass-through / dominance, who-may-call, slice-span linear forms, error-discipline paths, E2 bounds prover"),
  "C03": dict(cat="other",
-   text="Decides structural necessary conditions of the plain round trip on wire-slot tables from SSA (bit-provenance vectors for masks/shifts/byte order, linear forms for offsets, flow-insensitive buffer families on the encode side, token sequences for the stream-style EAP-AKA' codec): W subset-of R for every field bit and octet string of 27 records (spans normalised through the encoder's length slots), every field bit within the domain width emitted and stored, every field covered on both sides, dispatch bijections (16 payload types, 5 EAP methods), the generic-header chain rule, sibling agreement (IDi/IDr, TSi/TSr incl. the shared selector record per function), EAP-AKA' case sets and per-case token sequences. Value-level equality for arbitrary contents is not decided.",
+   text="Decides structural necessary conditions of the plain round trip on wire-slot tables from SSA (bit-provenance vectors for masks/shifts/byte order, linear forms for offsets, flow-insensitive buffer families on the encode side, token sequences for the stream-style EAP-AKA' codec): W subset-of R for every field bit and octet string of 27 records (spans normalised through the encoder's length slots), every field bit within the domain width emitted and stored, every field covered on both sides, dispatch bijections (16 payload types, 5 EAP methods), the generic-header chain rule, sibling agreement (IDi/IDr, TSi/TSr incl. the shared selector record per function), EAP-AKA' case sets and per-case token sequences. Value-level equality for arbitrary contents is not decided. An object a decoder allocates for a list element inside a loop is collected on every path of the iteration that does not fail, unless a comparison of decoded data with a constant (a type code that is not filed) leaves it out (decode.element-kept).",
    ref="DESIGN.md 3.6, 4 C03",
    note=TB + " Domain restrictions of the property (attribute types < 2^15, versions <= 15, vendor id < 2^24).",
    tech="static analysis: wire-slot table extraction (bit provenance over SSA) and encoder/decoder table comparison"),
@@ -33,17 +33,17 @@ CHECKS = {
    note=TB + " spec/wire_layout.json is hand-transcribed from the RFCs (independent of the code, not of the author).",
    tech="static analysis: wire-slot table extraction and comparison with an RFC reference table"),
  "C06": dict(cat="other",
-   text="Decides the dataflow shape of protection, not byte-level interoperability: inner encoding of the original payload list -> encryptPayload -> placeholder of exactly L octets -> Reset + BuildEncrypted dominate the Encode whose result minus L octets is MAC'd -> MAC copied into the tail of the very payload the final Encode serialises -> nothing else changes afterwards; SK next-payload rule and the container's trailing-SK rule; sender-direction keys; Encrypt = IV|CBC(padded) with per-call random IV; PKCS7 pad count in [1,16] with pad length p-1; Decrypt strips last+1 and inspects no other pad octet (any legal padding accepted).",
+   text="Decides the dataflow shape of protection, not byte-level interoperability: inner encoding of the original payload list -> encryptPayload -> placeholder of exactly L octets -> Reset + BuildEncrypted dominate the Encode whose result minus L octets is MAC'd -> MAC copied into the tail of the very payload the final Encode serialises -> nothing else changes afterwards; SK next-payload rule and the container's trailing-SK rule; sender-direction keys; Encrypt = IV|CBC(padded) with per-call random IV; PKCS7 pad count in [1,16] with pad length p-1; Decrypt strips last+1 and inspects no other pad octet (any legal padding accepted). The payload list is replaced only after inner encoding and encryption have succeeded (protect.message-intact-on-failure), and Decrypt accepts every legal pad length 0..255, not only the minimal one (decrypt-accepts-legal-padding, a totality rule on IV | n >= 1 blocks).",
    ref="DESIGN.md 4 C06",
    note=TB + " crypto/aes, crypto/cipher, crypto/hmac correct; plain encoding deterministic (C20).",
    tech="static analysis: dominance/ordering rules, slice-span linear forms, structural shape matching, effect scan after the MAC'd encoding"),
  "C07": dict(cat="other",
-   text="Decides structural necessary conditions, not key values: the slice chain of GenerateKeyForIKESA is normalised into an offset table over P/A/E (key lengths of the SA's own PRF/integrity/encryption descriptors) and compared with RFC 7296 2.14 (order d,ai,ar,ei,er,pi,pr; total 3P+2A+2E); SKEYSEED argument roles; the seed concat list Ni|Nr|SPIi|SPIr by an ordered walk; the prf+ loop structure (Reset, T(n-1)|S|n, counter from 1, chaining block, truncation); registry lengths/hash/guards vs the RFC table; objects keyed with their own keys; NewIKESAKey argument order.",
+   text="Decides structural necessary conditions, not key values: the slice chain of GenerateKeyForIKESA is normalised into an offset table over P/A/E (key lengths of the SA's own PRF/integrity/encryption descriptors) and compared with RFC 7296 2.14 (order d,ai,ar,ei,er,pi,pr; total 3P+2A+2E); SKEYSEED argument roles; the seed concat list Ni|Nr|SPIi|SPIr by an ordered walk; the prf+ loop structure (Reset, T(n-1)|S|n, counter from 1, chaining block, truncation); registry lengths/hash/guards vs the RFC table; objects keyed with their own keys; NewIKESAKey argument order. No function reachable from the derivation stores to package-level state or writes through memory reachable from it (derive.no-shared-state): the keys are a function of the arguments whatever ran before or runs at the same time.",
    ref="DESIGN.md 4 C07",
    note=TB + " HMAC of the standard library is correct; RFC table transcribed by hand.",
    tech="static analysis: slice-chain normalisation with linear forms, structural matching of the prf+ loop, constant evaluation of registries"),
  "C08": dict(cat="other",
-   text="Decides structural necessary conditions: KEYMAT requested as 2(E+A) with A=0 exactly when no integrity transform is negotiated, slices ei/ai/er/ar at the RFC 7296 2.17 offsets, copied out of the stream, prf+ keyed with the IKE SA's SK_d object and seeded with the nonce, prf+ structure as in C07, and hash typestate (Reset before every Write) for every derivation on the long-lived object.",
+   text="Decides structural necessary conditions: KEYMAT requested as 2(E+A) with A=0 exactly when no integrity transform is negotiated, slices ei/ai/er/ar at the RFC 7296 2.17 offsets, copied out of the stream, prf+ keyed with the IKE SA's SK_d object and seeded with the nonce, prf+ structure as in C07, and hash typestate (Reset before every Write) for every derivation on the long-lived object. No function reachable from the derivation, including the PRF descriptors' Init that makes the long-lived SK_d object, stores to package-level state (derive.no-shared-state).",
    ref="DESIGN.md 4 C08",
    note=TB,
    tech="static analysis: slice-chain normalisation with linear forms, phi/guard matching, hash typestate dataflow"),
@@ -53,7 +53,7 @@ CHECKS = {
    note=TB + " math/big is correct; Exp result < modulus.",
    tech="static analysis: exact constant comparison against checker-derived reference values, structural shape matching on SSA, error-discipline paths"),
  "C10": dict(cat="other",
-   text="Decides structural necessary conditions: panic-freedom proof (E2) of every IKECrypto.Decrypt for all inputs; Encrypt's production arm shape (IV = first block of a fresh 16+len(padded) buffer, filled per call by io.ReadFull(crypto/rand.Reader) with the error checked, that block handed to NewCBCEncrypter, CryptBlocks into out[16:], whole buffer returned); no cipher method writes its receiver or package state; NewCrypto guards len(key) == descriptor key length, registered lengths {16,24,32}; PKCS7: pad count in [1,16] by interval proof with the block size bound at every call site, last octet p-1, padded length multiple of 16 (remainder identity); Decrypt strips last+1 and inspects no other pad octet. decrypt(encrypt(x)) = x and the exact size law are not decided.",
+   text="Decides structural necessary conditions: panic-freedom proof (E2) of every IKECrypto.Decrypt for all inputs; Encrypt's production arm shape (IV = first block of a fresh 16+len(padded) buffer, filled per call by io.ReadFull(crypto/rand.Reader) with the error checked, that block handed to NewCBCEncrypter, CryptBlocks into out[16:], whole buffer returned); no cipher method writes its receiver or package state; NewCrypto guards len(key) == descriptor key length, registered lengths {16,24,32}; PKCS7: pad count in [1,16] by interval proof with the block size bound at every call site, last octet p-1, padded length multiple of 16 (remainder identity); Decrypt strips last+1 and inspects no other pad octet. decrypt(encrypt(x)) = x and the exact size law are not decided. Decrypt is total on genuine inputs: no failure exit is reachable for IV | n >= 1 whole blocks whose last decrypted octet p satisfies p + 1 <= 16 n (decrypt-accepts-legal-padding).",
    ref="DESIGN.md 4 C10",
    note=TB + " crypto/aes and crypto/cipher implement AES-CBC correctly; Iv/Padding test-injection fields never assigned by non-test code.",
    tech="static analysis: E2 bounds prover, structural shape matching on SSA with closed-world dead-branch elimination, interval and remainder reasoning"),
@@ -63,7 +63,7 @@ CHECKS = {
    note=TB + " Reference table transcribed from RFC 7296/3602/2403/2404/4868 and IANA; registries immutable after init (C18).",
    tech="static analysis: constant propagation over registry initialisers and descriptor methods, decision-tree enumeration, dominance rules"),
  "C12": dict(cat="other",
-   text="Decides structural necessary conditions of decode/encode stability on the wire-slot tables: R subset-of W (nothing the decoder keeps is dropped or moved by re-encoding), no decode-only fields, every field bit emitted, W subset-of R for byte identity of canonical datagrams, length slots final, EAP-AKA' token alignment (only zero padding dropped) and sorted attribute iteration. The fixed-point claim for inputs with inconsistent counts is not decided.",
+   text="Decides structural necessary conditions of decode/encode stability on the wire-slot tables: R subset-of W (nothing the decoder keeps is dropped or moved by re-encoding), no decode-only fields, every field bit emitted, W subset-of R for byte identity of canonical datagrams, length slots final, EAP-AKA' token alignment (only zero padding dropped) and sorted attribute iteration. The fixed-point claim for inputs with inconsistent counts is not decided. Every list element the decoder allocates is collected unless a comparison with a constant leaves it out (decode.element-kept): no element of an accepted datagram is dropped depending on what was decoded before.",
    ref="DESIGN.md 3.6, 4 C12",
    note=TB,
    tech="static analysis: wire-slot table extraction and decoder/encoder table comparison, token-sequence comparison"),
